@@ -42,6 +42,38 @@ CONSTRUCTORS = {
 }
 
 
+def check_base_tables(prog, report, skip=()):
+    """The exactness of the tabulated literals only (E1-literal, E1-double),
+    for checks of properties that take the base rules as a premise."""
+    ext = tables.extract_rules(prog)
+    for fname, (fi, rules, else_ok) in ext.items():
+        if fname in skip:
+            continue
+        family, _ = tables.FAMILIES[fname]
+        for r in rules:
+            where = '%s:%d (%s)' % (fi.file, r.lineno, fname)
+            if r.problem:
+                raise AnalysisError('%s: %s' % (where, r.problem))
+            same_len, _, _, _ = tables.shape_facts(r)
+            if not same_len or not r.returned:
+                report.violation('E1-literal', r.name, where,
+                                 'malformed table entry', construct=r.name)
+                continue
+            hi, label, nm, lo = tables.residuals(r, family, 80, False)
+            if hi < LIT_BOUND:
+                report.ok('E1-literal', r.name, where,
+                          '%d moments, max rel residual <= %.2e' % (nm, hi))
+            elif lo < LIT_BOUND:
+                raise AnalysisError(
+                    '%s: interval too wide to decide 1e-30 bound' % where)
+            else:
+                report.violation(
+                    'E1-literal', r.name, where,
+                    'literals as written: rel residual %.3e >= 1e-30 on '
+                    '%s (%d moments checked)' % (lo, label, nm),
+                    construct=r.name, measure=hi)
+
+
 def run(prog, report, tier):
     digits = 80 if tier == 'quick' else 200
     ext = tables.extract_rules(prog)
